@@ -4,6 +4,8 @@
 (* Discrete families: probabilities in units of 1/PDen = 1/8 (logit = ln p is handed to the real *)
 (* code), every mask that leaves one legal outcome per component.                                *)
 (* Box: mu in units of 1/4, log_std = ks ln 2, eps in units of 1/2.                              *)
+(* MultiDiscrete components of a single outcome (nvec entry 1, probability 8/8) are part of the   *)
+(* grid: <<1, 2>>, <<2, 1, 2>>.                                                                  *)
 EXTENDS Dist, Json
 
 D(fam, nvec, pv) == [fam |-> fam, nvec |-> nvec, pvals |-> pv]
@@ -12,13 +14,14 @@ B(d, mus, kset, es) == [fam |-> "box", d |-> d, mus |-> mus, kset |-> kset, es |
 \* quick tier
 ShapesQ == { D("disc", <<2>>, 1..7), D("disc", <<3>>, 1..6), D("disc", <<4>>, {1, 2, 3, 5}),
              D("multi", <<2, 3>>, {1, 2, 3, 4, 5, 6}), D("multi", <<3, 2>>, {2, 3, 4, 6}), D("multi", <<2, 2, 2>>, {2, 4, 6}),
-             D("multi", <<3>>, {1, 2, 5, 6}),
+             D("multi", <<3>>, {1, 2, 5, 6}), D("multi", <<1, 2>>, {2, 6, 8}),
              D("bits", <<1>>, 1..7), D("bits", <<2>>, {1, 2, 4, 7}), D("bits", <<3>>, {2, 4, 7}),
              B(1, {-6, -1, 0, 2}, {-1, 0, 1}, {-3, -2, -1, 0, 1, 2, 3}),
              B(2, {-2, 1}, {-1, 0, 1}, {-2, 0, 1, 3}),
              B(3, {-2, 1}, {-1, 1}, {-1, 0, 2}) }
 \* thorough tier
-ShapesT == { D("disc", <<2>>, 1..7), D("disc", <<3>>, 1..6), D("disc", <<4>>, 1..5),
+ShapesT == { D("disc", <<2>>, 1..7), D("disc", <<3>>, 1..6), D("disc", <<4>>, 1..5), D("disc", <<5>>, {1, 2, 3}),
+             D("multi", <<1, 2>>, {1, 2, 3, 5, 6, 7, 8}), D("multi", <<2, 1, 2>>, {2, 6, 8}),
              D("multi", <<2, 3>>, 1..7), D("multi", <<3, 2>>, 1..7), D("multi", <<2, 2, 2>>, {1, 2, 4, 6, 7}),
              D("multi", <<4, 2>>, {1, 2, 3, 5, 6}), D("multi", <<3>>, 1..6), D("multi", <<2, 3, 2>>, {2, 4, 6}),
              D("bits", <<1>>, 1..7), D("bits", <<2>>, 1..7), D("bits", <<3>>, {1, 2, 4, 7}), D("bits", <<4>>, {2, 7}),
